@@ -968,7 +968,16 @@ fn codegen_router(ops: &Operations, rust_types: &RustTypes) {
                                 (true, false) => {
                                     let tag = route.query_tag.as_deref().unwrap();
 
-                                    g!("if qs.has(\"{tag}\") {{");
+                                    // operations sharing a tag are told apart by their required query strings
+                                    let mut cond = f!("qs.has(\"{tag}\")");
+                                    let shared = group.iter().filter(|r| r.query_tag.as_deref() == Some(tag)).count() > 1;
+                                    if shared {
+                                        for q in &route.required_query_strings {
+                                            write!(cond, " && qs.has(\"{q}\")").unwrap();
+                                        }
+                                    }
+
+                                    g!("if {cond} {{");
                                     succ(route, true);
                                     g!("}}");
                                 }
